@@ -2,4 +2,4 @@ From Coq Require Import ExtrOcamlBasic.
 From Coq Require Import ZArith.
 From MT Require Import Sched.DescModel.
 Extraction Language OCaml.
-Separate Extraction BinNums.N BinInt.Z.add BinInt.Z.mul BinInt.Z.opp BinInt.Z.div_eucl init_state step step_cfg cfg_now cfg_prefix_nullid cfg_prefix_det label silent target lval joined ret_ok pending_acquire gt locked status join_thread detached result main cb gh runs got retv reaped desc_alloc desc_freed stack_alloc stack_freed stack_sz crashed badwake clock joins attr_dirty attr_init attr_init_prefix attr_setdetachstate attr_setstacksize attr_setchildfirst attr_setguardsize attr_setstack create_settings ainit astep nd ns fd fs ath a_desc a_stk a_det a_ph unreaped running.
+Separate Extraction BinNums.N BinInt.Z.add BinInt.Z.mul BinInt.Z.opp BinInt.Z.div_eucl init_state step step_cfg cfg_now cfg_prefix_nullid cfg_prefix_det label silent target lval joined ret_ok pending_acquire gt locked status join_thread detached result main cb gh runs got retv reaped desc_alloc desc_freed stack_alloc stack_freed stack_sz crashed badwake clock joins cancelled cancel_enabled creq acted thr attr_dirty attr_init attr_init_prefix attr_setdetachstate attr_setstacksize attr_setchildfirst attr_setguardsize attr_setstack create_settings ainit astep nd ns fd fs ath a_desc a_stk a_det a_ph unreaped running.
